@@ -310,8 +310,9 @@ def with_fallback(ctx, laws, fallback, scenarios=None):
         law(ctx, *laws, scenarios=scenarios)
     except AnalysisError as e:
         del ctx.obs[n0:]
-        ctx.note(f"resolution not interpretable ({e}); syntactic rule used instead")
-        fallback(ctx)
+        from .common import run_fallback
+
+        run_fallback(ctx, fallback, e, "resolution")
 
 
 def law_prefilled(ctx):
